@@ -70,9 +70,18 @@ fn run(a: &vhcore::Args) -> i32 {
     let res = run_campaign(&pool, "c03", &cases, 120, &specs);
     let mut outcomes = vhcore::Distinct::default();
     let mut compared = 0u64;
+    // pass 1: collect the differences; pass 2: classify. A class key names the inserted pass (not the
+    // position, the program space or the neighbouring pass): a pass that misbehaves alone is the
+    // culprit of every combination it takes part in.
+    struct Diff {
+        case_idx: usize,
+        variant: usize,
+        kind: String,
+        msg: String,
+    }
+    let mut diffs: Vec<Diff> = vec![];
     for cr in &res.per_case {
-        let case = &cases[cr.case_idx];
-        for v in &vars {
+        for (vi, v) in vars.iter().enumerate() {
             let base_label = if v.release { "O1" } else { "O0" };
             let (Some(base), Some(var)) = (cr.builds.get(base_label), cr.builds.get(&v.label)) else { continue };
             compared += 1;
@@ -80,16 +89,61 @@ fn run(a: &vhcore::Args) -> i32 {
                 outcomes.add(&format!("{o:?}"));
             }
             if let Some((kind, msg)) = diff_builds(base, var) {
-                let key = match case.known_class {
-                    Some(k) => format!("C03|{k}"),
-                    None => format!("C03|{}|{}|{kind}", v.label, case.space),
-                };
-                let mut rj = vh_comp::replay::case_replay_json(case, &v.label, v.release);
-                rj["pass_ops"] = serde_json::to_value(&v.pass_ops).unwrap();
-                rj["how"] = json!("build the package with the default pipeline and with the pass list edited as in pass_ops (cfg fuellabs_sway_verif, sway_ir::pass_manager::verif::Controller::edit_passes); test t0 must behave identically");
-                rep.violation(&key, &format!("{} [{} vs {base_label}]: {msg}", case.desc, v.label), rj);
+                diffs.push(Diff { case_idx: cr.case_idx, variant: vi, kind, msg });
             }
         }
+    }
+    let inserted = |label: &str| -> Vec<String> {
+        match label.strip_prefix("O0+") {
+            Some(rest) => rest.split('@').next().unwrap_or("").split(',').map(|s| s.to_string()).collect(),
+            None => vec![],
+        }
+    };
+    let norm_kind = |k: &str| -> String {
+        if k.contains("panics@") {
+            let loc = k.split("panics@").nth(1).unwrap_or("");
+            let root = vhcore::repo_root();
+            let root = format!("{}/", root.to_string_lossy());
+            format!("build-panics@{}", loc.strip_prefix(&root).unwrap_or(loc))
+        } else if k.contains("rejected") {
+            "backend-rejects".to_string()
+        } else {
+            "behaviour-differs".to_string()
+        }
+    };
+    let bad_alone: std::collections::BTreeSet<String> = diffs
+        .iter()
+        .filter(|d| inserted(&vars[d.variant].label).len() == 1)
+        .map(|d| inserted(&vars[d.variant].label)[0].clone())
+        .collect();
+    for d in &diffs {
+        let case = &cases[d.case_idx];
+        let v = &vars[d.variant];
+        let base_label = if v.release { "O1" } else { "O0" };
+        let ins = inserted(&v.label);
+        let key = if let Some(k) = case.known_class {
+            format!("C03|{k}")
+        } else if ins.is_empty() {
+            // O1 with one pass removed: name the removed pass
+            let removed = res
+                .batches
+                .iter()
+                .flat_map(|b| b.outs.iter())
+                .find(|o| o.label == "O1")
+                .and_then(|o| v.label.strip_prefix("O1-minus#").and_then(|i| i.parse::<usize>().ok()).and_then(|i| o.passes_run.get(i).cloned()))
+                .unwrap_or_else(|| v.label.clone());
+            format!("C03|O1-without={removed}|{}", norm_kind(&d.kind))
+        } else if ins.len() == 1 {
+            format!("C03|pass={}|{}", ins[0], norm_kind(&d.kind))
+        } else if let Some(c) = ins.iter().find(|p| bad_alone.contains(*p)) {
+            format!("C03|pass={c}|{}", norm_kind(&d.kind))
+        } else {
+            format!("C03|passes={}|{}", ins.join("+"), norm_kind(&d.kind))
+        };
+        let mut rj = vh_comp::replay::case_replay_json(case, &v.label, v.release);
+        rj["pass_ops"] = serde_json::to_value(&v.pass_ops).unwrap();
+        rj["how"] = json!("build the package with the default pipeline and with the pass list edited as in pass_ops (cfg fuellabs_sway_verif, sway_ir::pass_manager::verif::Controller::edit_passes); test t0 must behave identically");
+        rep.violation(&key, &format!("{} [{} vs {base_label}]: {}", case.desc, v.label, d.msg), rj);
     }
     if outcomes.len() < 2 {
         vhcore::machinery_failure("vacuous: fewer than 2 distinct outcomes");
